@@ -308,6 +308,7 @@ def normalise_desc(desc):
     d.setdefault("extra_ratio", 0)
     d.setdefault("step", 20)
     d.setdefault("seed", 0)
+    d.setdefault("levelprefix", "Level_")      # AMReX's levelPrefix argument: the level directories may have another name
     if "layout" not in d or d["layout"] is None:
         d["layout"] = [None] * len(d["levels"])
     d["layout"] = [default_layout(len(bx)) if lay is None else lay
@@ -405,11 +406,11 @@ def write_plotfile(desc, path, ref=None):
         for b in range(len(ref.boxes[lv])):
             for (lo, hi) in ref.phys_box(lv, b):
                 lines.append("%s %s" % (g17(lo), g17(hi)))
-        lines.append("Level_%d/Cell" % lv)
+        lines.append("%s%d/Cell" % (d["levelprefix"], lv))
     with open(os.path.join(path, "Header"), "w") as f:
         f.write("\n".join(lines) + "\n")
     for lv in range(nlev):
-        ldir = os.path.join(path, "Level_%d" % lv)
+        ldir = os.path.join(path, "%s%d" % (d["levelprefix"], lv))
         os.makedirs(ldir)
         lay = d["layout"][lv]
         nb = len(ref.boxes[lv])
